@@ -66,7 +66,7 @@ Definition incr_saturating (n : N) : N := if (n =? MAXN)%N then n else (n + 1)%N
 
 Inductive label :=
 | LProd (p : nat)      (* producer p's next `write`: try_send (lossy) / send (non-lossy) takes effect *)
-| LClose (p : nat)     (* producer p, program finished, drops its NonBlocking clone *)
+| LClose (p : nat)     (* producer p drops its NonBlocking clone (lines it has not offered yet are never offered) *)
 | LWorker              (* the worker thread's next step *)
 | LGBegin              (* the guard's drop begins *)
 | LGSend               (* send_timeout(Shutdown) succeeds (or finds the channel disconnected) *)
@@ -187,7 +187,7 @@ Definition pstep (c : config) (s : state) (p : nat) : option state :=
 
 Definition cstep (s : state) (p : nat) : option state :=
   match nth_error (prods s) p with
-  | Some {| rem := []; popen := true |} => Some (set_prods s (upd_nth p {| rem := []; popen := false |} (prods s)))
+  | Some {| rem := r; popen := true |} => Some (set_prods s (upd_nth p {| rem := r; popen := false |} (prods s)))
   | _ => None
   end.
 
